@@ -168,12 +168,12 @@ func genSetter(r *rand.Rand) setterCall {
 	case 19:
 		switch r.Intn(3) {
 		case 0:
-			return setterCall{name: "SetFieldSeparator()", tog: true, apply: func() { mxj.SetFieldSeparator() }, model: func(s optState) { s["fieldSep"] = ":" }}
+			return setterCall{name: "SetFieldSeparator()", class: "fieldsep", tog: true, apply: func() { mxj.SetFieldSeparator() }, model: func(s optState) { s["fieldSep"] = ":" }}
 		case 1:
-			return setterCall{name: `SetFieldSeparator("")`, tog: true, apply: func() { mxj.SetFieldSeparator("") }, model: func(s optState) { s["fieldSep"] = ":" }}
+			return setterCall{name: `SetFieldSeparator("")`, class: "fieldsep", tog: true, apply: func() { mxj.SetFieldSeparator("") }, model: func(s optState) { s["fieldSep"] = ":" }}
 		default:
 			p := []string{"|", ";", "::", ":", "."}[r.Intn(5)]
-			return setterCall{name: fmt.Sprintf("SetFieldSeparator(%q)", p), expl: true, apply: func() { mxj.SetFieldSeparator(p) }, model: func(s optState) { s["fieldSep"] = p }}
+			return setterCall{name: fmt.Sprintf("SetFieldSeparator(%q)", p), class: "fieldsep", expl: true, apply: func() { mxj.SetFieldSeparator(p) }, model: func(s optState) { s["fieldSep"] = p }}
 		}
 	case 20:
 		n := []int{0, -5, 1, 32, 33, 64, 1000}[r.Intn(7)]
@@ -248,6 +248,15 @@ func decodeProbe(withCast bool) string {
 		b.WriteString(jv.Fp(m) + fmt.Sprint(err))
 	}
 	return b.String()
+}
+
+// fieldsepProbe: what the field separator is NOT documented to affect (it separates the parts of newVal strings and sub-keys only).
+func fieldsepProbe() string {
+	m, _ := mxj.NewMapJson([]byte(`{"doc":{"items":[{"id":"1","k":"a"},{"id":"2"}],"id":"0","x|y":"p;q"}}`))
+	nm, err := m.NewMap("doc.items[0].id:first", "doc.id:second.id", "doc.items")
+	vs, e2 := m.ValuesForPath("doc.items.id")
+	x, _ := m.Xml()
+	return jv.Fp(nm) + fmt.Sprint(err) + fpVals(vs, e2) + string(x) + decodeProbe(false)
 }
 
 // behaviourBattery: decode / encode / query through every API family, as a list of fingerprints.
@@ -381,6 +390,8 @@ func (c18) Case(c *core.Ctx) {
 			before = decodeProbe(false)
 		case "encoder":
 			before = decodeProbe(true)
+		case "fieldsep":
+			before = fieldsepProbe()
 		}
 		sc.apply()
 		sc.model(model)
@@ -417,9 +428,11 @@ func (c18) Case(c *core.Ctx) {
 				after = decodeProbe(false)
 			case "encoder":
 				after = decodeProbe(true)
+			case "fieldsep":
+				after = fieldsepProbe()
 			}
 			if after != before {
-				c.Violate("c18-interference:"+sc.class, sc.name+" changed a behaviour it does not document ("+map[string]string{"attr-case": "sequence codec / JSON", "cast": "un-cast decoding", "encoder": "decoding"}[sc.class]+")", core.D{"history": hist, "before": before, "after": after})
+				c.Violate("c18-interference:"+sc.class, sc.name+" changed a behaviour it does not document ("+map[string]string{"attr-case": "sequence codec / JSON", "cast": "un-cast decoding", "encoder": "decoding", "fieldsep": "NewMap key pairs, path queries without sub-keys, decoding/encoding"}[sc.class]+")", core.D{"history": hist, "before": before, "after": after})
 				return
 			}
 		}
